@@ -5,6 +5,7 @@ import (
 	"encoding/json"
 	"fmt"
 	"os"
+	"os/exec"
 	"path/filepath"
 	"runtime"
 	"sort"
@@ -24,7 +25,13 @@ import (
 // return their own outcome. The outcome class of every kind is also predicted by the Lean
 // machine (Model/Cancel.lean, with the facts regenerated from run.go) on an abstract program and
 // event trace, and the blocking opcodes found by the extractor must all be exercised here.
-func main() { hx.Main("C11", runC11) }
+func main() {
+	if os.Getenv("VERIF_C11_CHILD") != "" {
+		child()
+		return
+	}
+	hx.Main("C11", runC11)
+}
 
 type kind struct {
 	name     string
@@ -123,6 +130,94 @@ func init() {
 	}
 }
 
+// Callback shapes: Scriggo function values passed to native functions that call them (once, n
+// times, again and again until true, from a goroutine of the program), the called function
+// blocking or looping in every blocking construct; nested callbacks.
+func init() {
+	bodies := []struct{ name, src, abs string }{
+		{"loop", "for {\n}", "j@"},
+		{"recv", "<-ch", "r"},
+		{"send", "ch <- KK", "s"},
+		{"select", "select {}", "l0"},
+		{"range", "for range ch {\n}", "g"},
+		{"poll", "select {\ncase <-ch:\ndefault:\n}", "l1"},
+	}
+	type caller struct {
+		name string
+		src  func(body string) string
+		abs  func(body string) string // body's abstract instruction with @ for its own address
+	}
+	at := func(abs string, addr int) string { return strings.ReplaceAll(abs, "@", fmt.Sprint(addr)) }
+	callers := []caller{
+		{"until", func(b string) string { return "h.Until(func() bool {\n" + b + "\nreturn false\n})\n<-ch" },
+			func(b string) string { return "c,B4,r,h," + at(b, 4) + ",h" }},
+		{"each", func(b string) string { return "h.Each(2+KK%3, func(i int) {\n" + b + "\n})\n<-ch" },
+			func(b string) string { return "c,b4,r,h," + at(b, 4) + ",h" }},
+		{"apply", func(b string) string {
+			return "println(h.Apply(func(x int) int {\n" + b + "\nreturn x\n}, KK))\n<-ch"
+		}, func(b string) string { return "c,b4,r,h," + at(b, 4) + ",h" }},
+		{"nested", func(b string) string {
+			return "h.Until(func() bool {\nh.Each(2, func(i int) {\n" + b + "\n})\nreturn false\n})\n<-ch"
+		}, func(b string) string { return "c,B4,r,h,b6,h," + at(b, 6) + ",h" }},
+		{"in-goroutine", func(b string) string {
+			return "go func() {\nh.Until(func() bool {\n" + b + "\nreturn false\n})\n}()\nselect {}"
+		}, func(b string) string { return "o4,l0,h,h,B6,h," + at(b, 6) + ",h" }},
+	}
+	for _, cl := range callers {
+		for _, b := range bodies {
+			kinds = append(kinds, kind{
+				name:    "cb-" + cl.name + "-" + b.name,
+				body:    "ch := make(chan int)\n" + cl.src(b.src),
+				abs:     cl.abs(b.abs),
+				trace:   "s0,s0,s0,s0,s0,s0,s1,s1,s1,s1,c,w,s0,s1,s0,s1,s0,s1",
+				want:    "ctxErr 0",
+				nonterm: true,
+			})
+		}
+	}
+	// a callback run by a goroutine of the native code that is over before the cancellation
+	kinds = append(kinds, kind{name: "cb-gocall-done", body: "ch := make(chan int)\nh.GoCall(func() { ch <- KK })\n<-ch\nfor {\n}",
+		abs: "c,o4,r,j3,s,h", trace: "s0,s0,s1,S0,S1,s1,s0,s0,c,w,s0,s1", want: "ctxErr 0", op: "OpReceive", nonterm: true})
+}
+
+// knownGoCall: a function value called by a goroutine of the NATIVE code, still running when the
+// context is cancelled: its VM stops, callable.Value panics with the context's error, and nothing
+// recovers a panic in that goroutine — the host process dies. It is replayed in a child process.
+const knownGoCall = "callback-in-native-goroutine-kills-host-on-cancel"
+
+const goCallProgram = "package main\n\nimport \"h\"\n\nfunc main() {\n\th.GoCall(func() {\n\t\tfor {\n\t\t}\n\t})\n\tch := make(chan int)\n\t<-ch\n}\n"
+
+// child runs goCallProgram with a context cancelled after 20 ms and stays alive for a while.
+func child() {
+	a, err := run.Build(run.Case{Kind: "program", Files: map[string]string{"main.go": goCallProgram}, AllowGo: true})
+	if err != nil {
+		fmt.Println("child: build:", err)
+		os.Exit(3)
+	}
+	ctx, cancel := context.WithCancel(context.Background())
+	time.AfterFunc(20*time.Millisecond, cancel)
+	o := a.RunOnce(run.Input{}, ctx)
+	fmt.Println("child: run returned:", o.String())
+	time.Sleep(300 * time.Millisecond)
+	fmt.Println("child: alive")
+}
+
+// replayGoCall re-executes this binary as the child; reports whether the host process died.
+func replayGoCall() (died bool, detail string) {
+	cmd := exec.Command(os.Args[0])
+	cmd.Env = append(os.Environ(), "VERIF_C11_CHILD=1")
+	out, err := cmd.CombinedOutput()
+	text := string(out)
+	if err != nil || !strings.Contains(text, "child: alive") {
+		ls := strings.Split(strings.TrimSpace(text), "\n")
+		if len(ls) > 6 {
+			ls = ls[:6]
+		}
+		return true, strings.Join(ls, " | ")
+	}
+	return false, ""
+}
+
 // c11Case is one run: which kind, its constant, how the context ends and when.
 type c11Case struct {
 	Kind    string `json:"kind"`
@@ -165,7 +260,7 @@ type observed struct {
 var boundMs = 2000
 
 // exec runs one case.
-func exec(cs c11Case) (observed, error) {
+func execCase(cs c11Case) (observed, error) {
 	k := kindOf(cs.Kind)
 	if k == nil {
 		return observed{}, fmt.Errorf("unknown kind %q", cs.Kind)
@@ -231,7 +326,7 @@ func exec(cs c11Case) (observed, error) {
 
 func runC11(c *hx.Ctx) error {
 	res := c.Res
-	res.Rule = "79 kinds of generated code: 48 nested shapes (a range / receive loop / select loop over a channel fed with 1-3 values or endlessly, whose body sends, receives, selects with and without default, ranges over another channel or only computes) and 31 flat ones (tight/counting/nested loops, bounded recursion in a loop, blocked receive/send on unbuffered, full and nil channels, select{} and select without default, range over an open channel, goroutines spinning or blocked, select-default spin, short native calls in a loop, loops inside deferred/recovering functions, a loop inside a native callback, endless pipeline, template for loops / macro / receive; 4 terminating kinds) x random constant x context ending (cancel after 0-30 ms, timeout, cancelled before Run; for terminating code: never, late, background, racing cancel). Non-trivial: non-terminating code whose context ends, or terminating code with a context; distinct by kind+constant+context+delay"
+	res.Rule = "110 kinds of generated code: 31 callback shapes (a Scriggo function value called by a native function once / n times / until true / nested in another callback / inside a goroutine of the program, its body looping, receiving, sending, selecting, ranging or polling; one called from a native goroutine and over before the cancellation), 48 nested shapes (a range / receive loop / select loop over a channel fed with 1-3 values or endlessly, whose body sends, receives, selects with and without default, ranges over another channel or only computes) and 31 flat ones (tight/counting/nested loops, bounded recursion in a loop, blocked receive/send on unbuffered, full and nil channels, select{} and select without default, range over an open channel, goroutines spinning or blocked, select-default spin, short native calls in a loop, loops inside deferred/recovering functions, a loop inside a native callback, endless pipeline, template for loops / macro / receive; 4 terminating kinds) x random constant x context ending (cancel after 0-30 ms, timeout, cancelled before Run; for terminating code: never, late, background, racing cancel). Non-trivial: non-terminating code whose context ends, or terminating code with a context; distinct by kind+constant+context+delay"
 	if v := os.Getenv("VERIF_C11_BOUND_MS"); v != "" {
 		if n, err := strconv.Atoi(v); err == nil && n > 0 {
 			boundMs = n
@@ -239,6 +334,14 @@ func runC11(c *hx.Ctx) error {
 	}
 	if c.Replay != "" {
 		return replayC11(c)
+	}
+
+	// known finding, replayed on the real code (in a child process: it kills the host)
+	if died, detail := replayGoCall(); died {
+		res.AddBreak(proto.Break{Kind: "property", Name: "host-panic", Finding: c.Known(knownGoCall),
+			Case:  "C11 child " + knownGoCall,
+			Human: goCallProgram + "// native: GoCall(f func()) { go f() }; context cancelled after 20 ms",
+			Impl:  detail, Model: "Run returns the context's error and the host process keeps running"})
 	}
 
 	// model: facts, op coverage, predictions per kind
@@ -351,7 +454,7 @@ func runC11(c *hx.Ctx) error {
 		go func(i int, cs c11Case) {
 			defer wg.Done()
 			defer func() { <-sem }()
-			ob, err := exec(cs)
+			ob, err := execCase(cs)
 			if err == nil && !ob.returned {
 				hmu.Lock()
 				hangs++
@@ -457,7 +560,7 @@ func replayC11(c *hx.Ctx) error {
 	}
 	k := kindOf(cs.Kind)
 	for i := 0; i < 10; i++ {
-		ob, err := exec(cs)
+		ob, err := execCase(cs)
 		if err != nil {
 			return err
 		}
